@@ -35,7 +35,8 @@ def call(so, fn, args, restype='double', fcb=None, fcb_name='verif_f_ptr', fcb_s
             if fcb is not None:
                 sig = fcb_sig or ctypes.CFUNCTYPE(ctypes.c_double, ctypes.c_double)
                 def wrapped(*a):
-                    v = fcb(*a); log.append((tuple(x if isinstance(x, (int, float)) else None for x in a), v)); return v
+                    v = fcb(*a); note = getattr(fcb, 'note', None)     # a callback may leave a picklable note (e.g. the point behind a pointer argument) for the log
+                    log.append((tuple(x if isinstance(x, (int, float)) else None for x in a), v) + ((note,) if note is not None else ())); return v
                 cb = sig(wrapped); keepcb.append(cb)
                 ctypes.c_void_p.in_dll(lib, fcb_name).value = ctypes.cast(cb, ctypes.c_void_p).value
             if pre: pre(lib)
